@@ -21,6 +21,7 @@ structure Parsed where
   more : Bool
   frames : List Msg
   hold : Bool := false            -- the service keeps the connection open after the frames
+  closeAfter : Option Nat := none -- the reader of the tool's stdout goes away after that many documents
   debug : Bool := false           -- the global --debug flag
   hosts : Bool := false           -- `multihost` resolves to both loopback addresses; the service listens on one
   color : String := "off"         -- on | off | auto | absent
@@ -44,7 +45,8 @@ def parseCase : Sx → Option Parsed
     let outTty := opts.any fun o => match o with | .list [.atom "tty", .atom "t", _] => true | _ => false
     let has : String → Bool := fun tag => opts.any fun o => match o with | .list (.atom t :: _) => t == tag | _ => false
     pure { form, listen, url, args, more := more == "t", frames := fs.flatten, hold, color, outTty,
-           debug := has "debug", hosts := has "hosts" }
+           debug := has "debug", hosts := has "hosts",
+           closeAfter := opts.findSome? fun o => match o with | .list [.atom "close-stdout", n] => asNat n | _ => none }
   | _ => none
 
 /-- `varlink_connect` drops `;parameters` of unix addresses -/
@@ -84,28 +86,39 @@ def obs (conns : Nat) (resolver : Option String) (log : List Request) (out : Lis
 def msg (c : String) : Sx := .list [.atom "msg", .atom c]
 
 /-- with --debug the message is printed in another form: only its presence is compared -/
-def dbg (debug : Bool) (report : Sx) : Sx :=
+def dbg (debug : Bool) (quiet : Bool) (report : Sx) : Sx :=
+  -- (close-stdout n) cases: the wording on stderr is not compared at all
+  if quiet then .atom "-" else
   if debug then (match report with | .atom "-" => report | _ => msg "debug") else report
 
 def runCase (c : Parsed) : Sx :=
   let peer : Peer := fun log _ => if log.isEmpty then (c.frames, !c.hold) else ([], false)
   let call (method : String) (resolver : Option String) : Sx :=
     match c.args with
-    | some none => obs 1 resolver [] [] (.atom "1") (dbg c.debug (msg "parse-args"))
+    | some none => obs 1 resolver [] [] (.atom "1") (dbg c.debug c.closeAfter.isSome (msg "parse-args"))
     | args =>
       let a : Option Json := match args with | some (some j) => some j | _ => none
       let o := Cli.runCall peer {} method a c.more
       -- main.rs 608-613: `on`, `off`, otherwise "is stdout a terminal"
       let colour := c.color == "on" || (c.color != "off" && c.outTty)
-      obs 1 resolver o.wire.log o.stdout (if o.hang then .atom "hung" else .atom (toString o.exit)) (dbg c.debug (ofReport o.report)) colour
+      match c.closeAfter with
+      | some n =>
+        -- stdout takes n documents and is then gone: a further successful reply cannot be delivered, which is a
+        -- failure of the call as far as the exit status goes (how the tool says so is not compared)
+        let undelivered := o.stdout.length > n
+        obs 1 resolver o.wire.log (o.stdout.take n) (.atom (if undelivered || o.exit != 0 || o.hang then "1" else "0")) (.atom "-") colour
+      | none =>
+      obs 1 resolver o.wire.log o.stdout (if o.hang then .atom "hung" else .atom (toString o.exit)) (dbg c.debug c.closeAfter.isSome (ofReport o.report)) colour
+  -- `--bridge CMD`: the whole argument is the method, the command's stdio is the connection
+  if c.form == "bridge" then call c.url none else
   match Cli.split c.url with
-  | .invalid => obs 0 none [] [] (.atom "1") (dbg c.debug (msg "invalid-address"))
+  | .invalid => obs 0 none [] [] (.atom "1") (dbg c.debug c.closeAfter.isSome (msg "invalid-address"))
   | .direct a m =>
     if c.form != "nolisten" && c.form != "resolver" && reaches c.hosts a c.listen then call m none
-    else obs 0 none [] [] (.atom "1") (dbg c.debug (msg "connect"))
+    else obs 0 none [] [] (.atom "1") (dbg c.debug c.closeAfter.isSome (msg "connect"))
   | .resolve i m =>
     if c.form == "resolver" then call m (some i)
-    else obs 0 none [] [] (.atom "1") (dbg c.debug (msg "connect-resolver"))
+    else obs 0 none [] [] (.atom "1") (dbg c.debug c.closeAfter.isSome (msg "connect-resolver"))
 
 def parseReport : Sx → Option (Option Cli.Report × Bool)
   | .atom "-" => some (none, false)
@@ -139,7 +152,7 @@ def pred (cs os : Sx) : Cli.Verdict :=
         Cli.P_C20 { url := c.url, args := (match args with | some (some j) => some j | _ => none), more := c.more, frames := c.frames,
                     listening := c.form == "path" || c.form == "abstract" || c.form == "tcp",
                     listen := if c.hosts then "tcp:multihost:@PORT@" else c.listen,
-                    hold := c.hold, debug := c.debug, hosts := c.hosts }
+                    hold := c.hold, debug := c.debug, hosts := c.hosts, closeAfter := c.closeAfter, bridge := c.form == "bridge" }
           { conns := n, log := lg, rawLog := raw, stdout := docs,
             clean := (match clean with | .atom "t" => true | _ => false),
             exit := asNat exit, report := rep, otherMsg := other }
